@@ -202,7 +202,9 @@ pub fn judge_with_cursors(model: &Model, scn: &ReadScn, log: &RunLog, o: &JudgeO
     let mut end_reported = false;
     for (si, step) in log.steps.iter().enumerate() {
         errored = errored_next;
-        if !step.seam.faults.is_empty() {
+        // (a fault that fired in a *seek* call of the source leaves source and buffer as they were:
+        // the reader is not "damaged" by it, see the Loose arm of judge_error)
+        if (step.seam.seek_faults as usize) < step.seam.faults.len() {
             io_seen = true;
         }
         cursors.push(match phase {
@@ -644,13 +646,14 @@ fn judge_error(
                     Phase::Done
                 }
                 Phase::Loose(m) => {
-                    // After refusals only (no I/O error so far) nothing in the reader is
-                    // corrupted: a format error reported now is the input's own error and must
-                    // carry its true coordinates (C17), unless the input has no error of that kind
+                    // After refusals and failed seeks of the source only (no failed read so far)
+                    // nothing in the reader is corrupted: a format error reported now is the
+                    // input's own error and must carry its true coordinates (C17), unless the
+                    // input has no error of that kind
                     if !io_seen {
                         let same_kind: Vec<&Item> = model.items[m.min(model.items.len())..].iter().filter(|it| it.errs.iter().any(|p| p.kind == e.kind())).collect();
                         if !same_kind.is_empty() && !same_kind.iter().any(|it| it.errs.iter().any(|p| p.matches(e))) {
-                            viol("wrong_error_after_refusal", format!("{}: returned {:?} after a refused growth; the input's error of that kind is {}", at, e, show_item(same_kind[0])));
+                            viol("wrong_error_after_refusal", format!("{}: returned {:?} after a refused growth / a failed seek of the source; the input's error of that kind is {}", at, e, show_item(same_kind[0])));
                         }
                     }
                     Phase::Loose(m)
